@@ -132,12 +132,19 @@ func runStepper(c *Case) Verdict {
 				}
 			}
 			defer func() { lisp.Stepper = nil; lisp.VerifResetStepper() }()
-			for _, f := range c.Forms {
-				res, eerr = lisp.EVAL(ctx, ToMal(f), ns)
-				if eerr != nil {
-					return
+			// the program is READ from its text under a module name, so that forms and errors carry
+			// positions (a stepper that disturbs them is a change of "the same error")
+			ast, rerr := lisp.READ(c.Src, types.NewCursorFile("stepmod"), ns)
+			if rerr != nil || c.Src == "" || len(c.Forms) != 1 {
+				for _, f := range c.Forms {
+					res, eerr = lisp.EVAL(ctx, ToMal(f), ns)
+					if eerr != nil {
+						return
+					}
 				}
+				return
 			}
+			res, eerr = lisp.EVAL(ctx, ast, ns)
 		})
 		lisp.Stepper = nil
 		lisp.VerifResetStepper()
